@@ -20,6 +20,14 @@ def scale(tier, q, t):
     return t if tier == "thorough" else q
 
 
+
+def dbg(c, suites):
+    """the same suites on the builds with debug assertions and overflow checks ON (the crate has debug_assert!-only
+    checks and its own test suite runs with them): small sizes, structured parts"""
+    for (which, suite, n, arg, kw) in suites:
+        c.trace(which, suite, n, arg, **kw)
+    c.notes.append("also run with debug assertions / overflow checks enabled: " + ", ".join(sorted({"%s/%s" % (w, su) for (w, su, _, _, _) in suites})))
+
 def c01(c):
     build_both()
     c.mc(toy_cfgs(["point", "field", "bytes"], c.tier) + session_cfgs(c.tier))
@@ -34,6 +42,7 @@ def c01(c):
         c.trace(b, "prog", scale(c.tier, 60, 1200), 40)
         c.trace(b, "rt2rand", scale(c.tier, 1500, 30000))
         c.trace(b, "rt2near", scale(c.tier, 60, 1500))
+    dbg(c, [("arkdbg", "rt2near", 20, "", {}), ("mindbg", "rt2near", 20, "", {})])
     return c.finish(rule="distinct (build, event kind, encode form / decode entry point) combinations in validated "
                          "round-trip events (rt: compress->decompress->==, rt2: decompress->compress); toy part: every "
                          "point of 2E in every rescaling, every field element, every byte string of the encoding length")
@@ -90,6 +99,7 @@ def c02(c):
     for b in ("ark", "min"):
         c.trace(b, "decnear", scale(c.tier, 6, 120))
         c.trace(b, "decrand", scale(c.tier, 2000, 40000))
+    dbg(c, [("arkdbg", "decnear", 5, "", {}), ("mindbg", "decnear", 5, "", {})])
     return c.finish()
 
 
@@ -106,6 +116,7 @@ def c03(c):
         c.trace(b, "prog", scale(c.tier, 60, 1200), 40)
         # affine round trips and batch normalisation must hand back the same element (its encoding is unchanged)
         c.trace(b, "ctor", scale(c.tier, 50, 500), kinds=["conv"])
+    dbg(c, [("arkdbg", "obs", 1, "", {}), ("mindbg", "obs", 1, "", {})])
     return c.finish()
 
 
@@ -123,6 +134,7 @@ def c04(c):
         c.trace(b, "forms", 1)
         c.trace(b, "coset", scale(c.tier, 40, 800))
         c.trace(b, "prog", scale(c.tier, 80, 2000), 40)
+    dbg(c, [("arkdbg", "forms", 1, "", {}), ("mindbg", "forms", 1, "", {})])
     return c.finish()
 
 
@@ -135,6 +147,7 @@ def c05(c):
         c.trace(b, "order", scale(c.tier, 1, 20))
         c.trace(b, "progmul", scale(c.tier, 40, 800), 12)
         c.trace(b, "msm", scale(c.tier, 10, 200))
+    dbg(c, [("arkdbg", "mulforms", 6, "", {}), ("mindbg", "mulforms", 6, "", {}), ("arkdbg", "order", 1, "", {}), ("mindbg", "order", 1, "", {})])
     return c.finish()
 
 
@@ -153,6 +166,7 @@ def c07(c):
         c.trace(b, "ellfile", 0, ell)
         c.trace(b, "h2cfile", 0, pairs)
         c.trace(b, "ell", scale(c.tier, 1500, 40000))
+    dbg(c, [("arkdbg", "ell", 100, "", {}), ("mindbg", "ell", 100, "", {})])
     return c.finish()
 
 
@@ -167,6 +181,7 @@ def c08(c):
         c.trace(b, "prog", scale(c.tier, 40, 800), 40)
     c.exhaustive_parts.append("identity / equality predicates, hashes and encodings on representatives whose X or Y coordinate was set (rescaling "
                               "hook) to 12 word patterns, as canonical value and as Montgomery form, for four base elements")
+    dbg(c, [("arkdbg", "obs", 1, "", {}), ("mindbg", "obs", 1, "", {}), ("arkdbg", "coset", 20, "", {}), ("mindbg", "coset", 20, "", {})])
     return c.finish()
 
 
@@ -199,6 +214,7 @@ def c10(c):
         for f in ("Fq", "Fr", "Fp"):
             c.trace(b, "farith_" + f, scale(c.tier, 3000, 120000), **FT)
         c.trace(b, "fqextra", scale(c.tier, 300, 6000), **FT)
+    dbg(c, [(w, "farith_" + f, 200, "structured", FT) for w in ("arkdbg", "mindbg") for f in ("Fq", "Fr", "Fp")])
     return c.finish(rule="distinct (build, event kind, field-less call form) combinations in validated field-arithmetic events")
 
 
@@ -234,6 +250,7 @@ def c09(c):
             c.trace(b, "sqrtrace", 0, sd=seed() * 1000 + i)
     for f in ("Fq", "Fr", "Fp"):
         c.trace("ark", "fsqrt_" + f, scale(c.tier, 600, 20000), **FT)
+    dbg(c, [("arkdbg", "sqrtrand", 200, "", {}), ("mindbg", "sqrtrand", 200, "", {})])
     return c.finish()
 
 
@@ -244,6 +261,7 @@ def c06(c):
         c.trace(b, "ctor", scale(c.tier, 600, 20000))
         c.trace(b, "prog", scale(c.tier, 40, 800), 40)
     c.trace("ark", "decrand", scale(c.tier, 800, 20000), kinds=["dec"])
+    dbg(c, [("arkdbg", "ctor", 50, "", {})])
     return c.finish()
 
 
